@@ -1,15 +1,15 @@
 ---- MODULE Scen_Codegen ----
 (* operation sequences for replay on a scratch pycode directory with a probe model: all of length <= 3 and a *)
-(* residue-class sample of the 12^5 sequences of length 5                                                   *)
+(* residue-class sample of the 14^5 sequences of length 5                                                   *)
 EXTENDS Integers, Sequences, FiniteSets, TLC, Json, IOUtils
-OpSeq == <<"edit_e", "edit_v", "edit_iter", "edit_svc", "edit_ext", "edit_iter2", "edit_order", "prepare", "undill_auto", "undill_noauto", "corrupt", "delete">>
+OpSeq == <<"edit_e", "edit_v", "edit_iter", "edit_svc", "edit_ext", "edit_iter2", "edit_order", "prepare", "undill_auto", "undill_noauto", "corrupt", "delete", "trunc_funcs", "trunc_lists">>
 Ops == {OpSeq[k] : k \in 1..Len(OpSeq)}
 Seqs(n) == [1..n -> Ops]
-Digit(i, k) == (i \div (12 ^ k)) % 12
+Digit(i, k) == (i \div (14 ^ k)) % 14
 Decode5(i) == [k \in 1..5 |-> OpSeq[Digit(i, k - 1) + 1]]
 IsLoad(o) == o \in {"undill_auto", "undill_noauto"}
 Interesting(s) == IsLoad(s[5]) /\ \E k \in 1..4 : ~IsLoad(s[k]) /\ s[k] # "prepare"
-Seq5(m, r) == {s \in {Decode5(i) : i \in {j \in 0..(12 ^ 5 - 1) : j % m = r}} : Interesting(s)}
+Seq5(m, r) == {s \in {Decode5(i) : i \in {j \in 0..(14 ^ 5 - 1) : j % m = r}} : Interesting(s)}
 M == atoi(IOEnv.M)
 R == atoi(IOEnv.R)
 ASSUME JsonSerialize(IOEnv.OUT, [seq1 |-> Seqs(1), seq2 |-> Seqs(2), seq3 |-> Seqs(3), seq5 |-> Seq5(M, R)])
